@@ -195,7 +195,7 @@ struct Runner {
     vh::Stats& st;
     // normalised-position-key -> hash, over the whole run of this process
     std::unordered_map<uint64_t, HashSeen> seen;
-    size_t seenCap = 6000000;
+    size_t seenCap = 3000000;
     explicit Runner(vh::Stats& s) : st(s) {}
 
     // flags of the current sequence (non-triviality rule)
